@@ -253,12 +253,11 @@ class InlineTranslator:
 
         ### check if tuple set semantic does not allow for unique identification
         replace_terms = [stm.weight, stm.priority] + list(stm.terms)
-        if any(
-            map(
-                lambda x: potentially_unifying_sequence(x, replace_terms),
-                [t for t in self.minimize_tuples if t != replace_terms],
-            )
-        ):
+        # all other objectives: only the statement's own tuple is left out, not an equal tuple of another statement
+        other_tuples = list(self.minimize_tuples)
+        if replace_terms in other_tuples:
+            other_tuples.remove(replace_terms)
+        if any(map(lambda x: potentially_unifying_sequence(x, replace_terms), other_tuples)):
             log.info(f"Cannot inline agregate into {str(stm)} as the tuple is not unique.")
             return [stm]
 
